@@ -97,6 +97,8 @@ func Sets() [][]Def {
 		// tokens and skipped tokens that span several lines: a skipped WS of blanks and newlines, a bracketed block that
 		// may hold newlines, a statement end swallowing the newlines behind it
 		{P("WS", `[\x20\x0A]+`), P("BLK", `<[a\x0A]*>`), P("ID", "[a-z]+"), P("EOL", `;\x0A*`)},
+		// terminals whose names merely contain the names of the skipped terminals, next to the skipped ones themselves
+		{P("WSX", "1+"), P("XWS", "2+"), P("EOLS", "3+"), P("COMMENTS", "4+"), P("WS", "5+"), P("EOL", "6+"), P("COMMENT", "7+"), P("ID", "[a-z]+")},
 		// literals that close or open a comment, for the emitted files that quote the grammar
 		{I("*/"), I("/*"), I("//"), I("*/x/*"), L("OPEN", "/**"), P("ID", "[a-z]+")},
 		{L("EQ", "="), L("EQEQ", "=="), P("EQS", "=+x"), P("INT", "[0-9]+"), P("FLT", `[0-9]+\.[0-9]+`)},
@@ -116,6 +118,13 @@ func Sets() [][]Def {
 		{D("ID", "$ID"), D("NUMBER", "$NUMBER"), L("PLUS", "+"), L("STAR", "*"), L("LP", "("), L("RP", ")"), D("WS", "$WS")},
 		{P("UP", "[A-Z][a-z]*"), P("DIGITS", `\d{2,3}`), L("AT", "@"), L("HASH", "#")},
 		{P("HEX", "[0-9a-f]+"), P("B32", "[A-Z2-7]+x"), P("S64", `[0-9A-Za-z_#]y`), P("S8", "[a-h]z"), P("S15", "[a-o]!"), P("S17", "[a-q]#"), P("S31", `[A-Z1-5]%`), P("S33", `[A-Z1-7]&`), P("S48", `[0-9A-Za-l]~`)},
+		// an automaton with more than 64 (and more than 128) states whose late states are entered on whole character classes
+		{P("KA", `a[0-9][0-9][0-9][0-9][0-9][0-9]`), P("KB", `b[0-9][0-9][0-9][0-9][0-9][0-9]`), P("KC", `c[a-f][a-f][a-f][a-f][a-f][a-f]`), P("KD", `d[0-9][0-9][0-9][0-9][0-9][0-9]`),
+			P("KE", `e[x-z][x-z][x-z][x-z][x-z][x-z]`), P("KF", `f[0-9][0-9][0-9][0-9][0-9][0-9]`), P("KG", `g[0-9a-f][0-9a-f][0-9a-f][0-9a-f][0-9a-f][0-9a-f]`), P("KH", `h[0-9][0-9][0-9][0-9][0-9][0-9]`),
+			P("KI", `i[0-9][0-9]:[0-9][0-9](:[0-9][0-9])?`), P("KJ", `j[0-9][0-9][0-9][0-9][0-9][0-9]`), P("KK", `k[0-9][0-9][0-9][0-9][0-9][0-9]`), P("KL", `l[0-9][0-9][0-9][0-9][0-9][0-9]`),
+			P("KM", `m[0-9][0-9][0-9][0-9][0-9][0-9]`), P("KN", `n[0-9][0-9][0-9][0-9][0-9][0-9]`), P("KO", `o[0-9][0-9][0-9][0-9][0-9][0-9]`), P("KP", `p[0-9][0-9][0-9][0-9][0-9][0-9]`),
+			P("KQ", `q[0-9][0-9][0-9][0-9][0-9][0-9]`), P("KR", `r[0-9][0-9][0-9][0-9][0-9][0-9]`), P("KS", `s[0-9][0-9][0-9][0-9][0-9][0-9]`), P("KT", `t[0-9][0-9][0-9][0-9][0-9][0-9]`)},
+		{}, // no terminal at all: `start = ;`
 		{L("BQ", "`"), L("ABQ", "a`b"), L("TRI", "```"), L("DOLLAR", "$"), L("PCT", "%d"), L("NL", `\n`), L("BRACES", "{{}}")},
 		{L("P1", "!"), L("P2", "#"), L("P3", "&"), L("P4", "'"), L("P5", "*"), L("P6", ","), L("P7", "."), L("P8", "/"), L("P9", ":"), L("PA", "<"), L("PB", ">"), L("PC", "?"), L("PD", "["), L("PE", "]"), L("PF", "^"), L("PG", "_"), L("PH", "|"), L("PI", "~"), L("PJ", `\\n`), L("PK", `\"\"`)},
 	}
